@@ -36,6 +36,15 @@ theorem facts_pop_success_path :
 /-- `Len`. -/
 theorem facts_len : soloSrc .addThenStore (init [9] [[.len]]) 1 = Gen.C11.lenOps := by decide
 
+/-- Control skeletons of `Push`, `Pop`, `Len` as the model has them: `Push` is ONE loop with
+one branch (the link CAS) and one return; `Pop` is straight-line with two branches (empty /
+CAS) and three returns; `Len` is one return.  No helper calls, no second loop, no `else`. -/
+theorem facts_ctl :
+    Gen.C11.pushCtl = [.loop, .cond "if", .ret] ∧
+    Gen.C11.popCtl = [.cond "if", .ret, .cond "if", .ret, .ret] ∧
+    Gen.C11.lenCtl = [.ret] := by
+  decide
+
 /-- `PopWait(d)` as the model has it: `d < 0` → loop of (`Pop`, return if ok, `Gosched`);
 otherwise one `Pop` (return if ok); `d == 0` → return false; else a ticker and a loop of
 (receive a tick, `Pop`, return if ok, return false if `now.Sub(begin) >= d`): exactly TWO
